@@ -718,7 +718,14 @@ class Monitors:
                         continue
                     if sorted(ga.ids) != sorted(gb.ids):
                         continue  # equal-distance choppers applied in the other order: compare later frames
+                    # subframes of zero area (a window edge that only touches the polygon) carry no
+                    # neutrons: whether they are reported may depend on the order, they are not compared
                     pa, pb = _polys(fa), _polys(fb)
+                    sc_t = max(_maxabs(pa), _maxabs(pb), LD(1e-300))
+                    na, nb = len(pa), len(pb)
+                    pa = [p for p in pa if _area(p, sc_t, ga.pulse.l1) > BAND]
+                    pb = [p for p in pb if _area(p, sc_t, ga.pulse.l1) > BAND]
+                    ctx.count('permutation:zero_area_subframes_ignored', na - len(pa) + nb - len(pb))
                     compared += 1
                     if (len(pa) == 0) != (len(pb) == 0):
                         ok, what = False, 'one order blocks everything, the other does not'
@@ -740,6 +747,13 @@ class Monitors:
                               + (what if not ok else f'vertices differ by {worst:.3g} (allowed {tol:.3g})'), case)
         except Exception:  # noqa: BLE001
             ctx.oracle_error('C11 judge_permutation')
+
+
+def _area(poly, tscale, lscale):
+    """Area of a polygon in the normalised plane (shoelace)."""
+    x = poly[0] / LD(tscale)
+    y = poly[1] / LD(lscale)
+    return abs(np.sum(x * np.roll(y, -1) - np.roll(x, -1) * y)) / 2
 
 
 def _polys_flat(frame):
